@@ -289,7 +289,7 @@ PARTS = {
         formulas={"C01.Attribution": "C01", "C01.KeyDisclosed": "C01", "C02.Delivered": "C02", "C02.MutantAccepted": "C02", "C02.WrongSource": "C02",
                   "C03.ReplayAccepted": "C03", "C03.NoChallenge": "C03", "C03.WrongSource": "C03", "C03.TwoHandshakes": "C03", "C03.ActedOnForeign": "C03",
                   "C04.TwoOutcomes": "C04", "C04.EventAfterOutcome": "C04", "C04.NoOutcome": "C04", "C04.TimeoutUnjustified": "C04", "C04.WireBound": "C04",
-                  "C13.Count": "C13", "C13.LeftOver": "C13", "C13.ReleasedEarly": "C13", "C12.SingleStack": "C12", "C15.Capacity": "C15", "C15.StaleSessionUsed": "C15",
+                  "C13.Count": "C13", "C13.LeftOver": "C13", "C13.ReleasedEarly": "C13", "C12.SingleStack": "C12", "C12.EstablishedForeign": "C12", "C15.Capacity": "C15", "C15.StaleSessionUsed": "C15",
                   "C19.NonceReuse": "C19", "C19.IdNonceReuse": "C19"},
         interesting=_h_interesting, required=_h_required,
         assumptions=["the real Handler::start() loop runs on a paused tokio clock over a virtual socket (hook H1); socket/recv.rs and send.rs (UDP I/O, packet filter call order) are bypassed",
